@@ -38,6 +38,10 @@ impl Callable for Procedure {
         args_tokens: &[SourceSpan],
         source: Arc<str>,
     ) -> Result<Value, RuntimeError> {
+        #[cfg(feature = "verif")]
+        let Some(_verif_depth_guard) = crate::verif::enter_call() else {
+            return Err(crate::verif::limit_error(crate::verif::DEPTH_MESSAGE));
+        };
         // save the return value
         let cached_return_value = interpreter.return_value.clone();
 
